@@ -57,20 +57,20 @@ theorem command_eq_spec (m : Msg) : Model.Msg.command m = Spec.Msg.command m := 
 /-- the `messagemap` entry for the type's command parses the prescribed payload back to the same
     field values (`norm`: an all-empty transaction witness comes back as no witness), whatever
     bytes follow -/
-theorem payload_roundtrip (m : Msg) (hwf : WFMsg m) :
-    ∃ p, msgDeser (Spec.Msg.command m) = some p ∧ ∀ rest, p (payload m ++ rest) = .ok (norm m, rest) :=
-  payload_parse m hwf
+theorem payload_roundtrip (pv : Nat) (m : Msg) (hwf : WFMsg m) (hpv : AddrProto pv m) :
+    ∃ p, msgDeser pv (Spec.Msg.command m) = some p ∧ ∀ rest, p (payload m ++ rest) = .ok (norm m, rest) :=
+  payload_parse pv m hwf hpv
 
 /-- parsing a frame followed by anything returns the message and leaves exactly what followed -/
-theorem parse_frame (magic : Bytes) (hm : magic.length = 4) (m : Msg)
-    (hwf : WFMsg m) (hlen : (payload m).length ≤ Spec.Wire.maxSize) (rest : Bytes) :
-    streamDeserialize magic (frameMsg magic m ++ rest) = (.ok (some (norm m)), rest) := by
+theorem parse_frame (pv : Nat) (magic : Bytes) (hm : magic.length = 4) (m : Msg)
+    (hwf : WFMsg m) (hpv : AddrProto pv m) (hlen : (payload m).length ≤ Spec.Wire.maxSize) (rest : Bytes) :
+    streamDeserialize magic pv (frameMsg magic m ++ rest) = (.ok (some (norm m)), rest) := by
   obtain ⟨hc, hz⟩ := command_props m
-  obtain ⟨p, hp, hrt⟩ := payload_parse m hwf
+  obtain ⟨p, hp, hrt⟩ := payload_parse pv m hwf hpv
   have h := hrt []
   rw [List.append_nil] at h
   unfold frameMsg
-  rw [streamDeserialize_frame checksumLen magic (Spec.Msg.command m) (payload m) rest hm hc hz hlen]
+  rw [streamDeserialize_frame checksumLen magic pv (Spec.Msg.command m) (payload m) rest hm hc hz hlen]
   simp [dispatch, hp, h]
 
 /-- re-framing what parsing yields is byte-identical to framing the original -/
@@ -79,37 +79,37 @@ theorem reframe_identical (magic : Bytes) (m : Msg) : toBytes magic (norm m) = t
   rw [msgSer_norm, command_norm]
 
 /-- frame → parse → frame reproduces the frame -/
-theorem parse_reframe (magic : Bytes) (hm : magic.length = 4) (m : Msg)
-    (hwf : WFMsg m) (hlen : (payload m).length ≤ Spec.Wire.maxSize) (rest : Bytes) :
-    ∃ m', streamDeserialize magic (frameMsg magic m ++ rest) = (.ok (some m'), rest) ∧
+theorem parse_reframe (pv : Nat) (magic : Bytes) (hm : magic.length = 4) (m : Msg)
+    (hwf : WFMsg m) (hpv : AddrProto pv m) (hlen : (payload m).length ≤ Spec.Wire.maxSize) (rest : Bytes) :
+    ∃ m', streamDeserialize magic pv (frameMsg magic m ++ rest) = (.ok (some m'), rest) ∧
       toBytes magic m' = .ok (frameMsg magic m) := by
-  refine ⟨norm m, parse_frame magic hm m hwf hlen rest, ?_⟩
+  refine ⟨norm m, parse_frame pv magic hm m hwf hpv hlen rest, ?_⟩
   rw [reframe_identical]
   exact frame_eq_spec magic m hwf (by
     have : Spec.Wire.maxSize < 2 ^ 32 := by decide
     omega)
 
 /-- `from_bytes` ignores what follows the first frame -/
-theorem fromBytes_frame (magic : Bytes) (hm : magic.length = 4) (m : Msg)
-    (hwf : WFMsg m) (hlen : (payload m).length ≤ Spec.Wire.maxSize) (extra : Bytes) :
-    fromBytes magic (frameMsg magic m ++ extra) = .ok (some (norm m)) := by
+theorem fromBytes_frame (pv : Nat) (magic : Bytes) (hm : magic.length = 4) (m : Msg)
+    (hwf : WFMsg m) (hpv : AddrProto pv m) (hlen : (payload m).length ≤ Spec.Wire.maxSize) (extra : Bytes) :
+    fromBytes magic pv (frameMsg magic m ++ extra) = .ok (some (norm m)) := by
   unfold fromBytes
-  rw [parse_frame magic hm m hwf hlen extra]
+  rw [parse_frame pv magic hm m hwf hpv hlen extra]
 
 /-- a stream of concatenated frames yields the messages in order, each call consuming exactly
     its frame, and the loop ends without an error -/
-theorem parse_stream (magic : Bytes) (hm : magic.length = 4) (ms : List Msg)
-    (h : ∀ m ∈ ms, WFMsg m ∧ (payload m).length ≤ Spec.Wire.maxSize) :
-    parseAll magic ((ms.map (frameMsg magic)).flatten) = (ms.map (fun m => some (norm m)), none) := by
+theorem parse_stream (pv : Nat) (magic : Bytes) (hm : magic.length = 4) (ms : List Msg)
+    (h : ∀ m ∈ ms, WFMsg m ∧ AddrProto pv m ∧ (payload m).length ≤ Spec.Wire.maxSize) :
+    parseAll magic pv ((ms.map (frameMsg magic)).flatten) = (ms.map (fun m => some (norm m)), none) := by
   unfold parseAll
   suffices H : ∀ fuel, ((ms.map (frameMsg magic)).flatten).length ≤ fuel →
-      parseAllAux magic fuel ((ms.map (frameMsg magic)).flatten) = (ms.map (fun m => some (norm m)), none) from
+      parseAllAux magic pv fuel ((ms.map (frameMsg magic)).flatten) = (ms.map (fun m => some (norm m)), none) from
     H _ (Nat.le_refl _)
   induction ms with
   | nil => intro fuel _; cases fuel <;> simp [parseAllAux]
   | cons m ms ih =>
     intro fuel hf
-    obtain ⟨hwf, hlen⟩ := h m (by simp)
+    obtain ⟨hwf, hpv, hlen⟩ := h m (by simp)
     have hfl : 24 ≤ (frameMsg magic m).length := by
       obtain ⟨hc, _⟩ := command_props m
       have := checksumLen (payload m)
@@ -124,21 +124,21 @@ theorem parse_stream (magic : Bytes) (hm : magic.length = 4) (ms : List Msg)
         | nil => rw [hq] at hfl; simp at hfl
         | cons => rfl
       simp only [parseAllAux, hne, Bool.false_eq_true, if_false]
-      rw [parse_frame magic hm m hwf hlen]
+      rw [parse_frame pv magic hm m hwf hpv hlen]
       simp only
       rw [ih (fun x hx => h x (by simp [hx])) fuel (by omega)]
 
 /-- frames followed by anything: the messages of the frames in order, each call consuming exactly
     its frame, then whatever reading the remainder yields (e.g. the error of a faulty frame) — so a
     fault after `n` good frames is reported after exactly those `n` messages -/
-theorem parse_stream_append (magic : Bytes) (hm : magic.length = 4) (ms : List Msg)
-    (h : ∀ m ∈ ms, WFMsg m ∧ (payload m).length ≤ Spec.Wire.maxSize) (tail : Bytes) :
-    parseAll magic ((ms.map (frameMsg magic)).flatten ++ tail) =
-      (ms.map (fun m => some (norm m)) ++ (parseAll magic tail).1, (parseAll magic tail).2) := by
+theorem parse_stream_append (pv : Nat) (magic : Bytes) (hm : magic.length = 4) (ms : List Msg)
+    (h : ∀ m ∈ ms, WFMsg m ∧ AddrProto pv m ∧ (payload m).length ≤ Spec.Wire.maxSize) (tail : Bytes) :
+    parseAll magic pv ((ms.map (frameMsg magic)).flatten ++ tail) =
+      (ms.map (fun m => some (norm m)) ++ (parseAll magic pv tail).1, (parseAll magic pv tail).2) := by
   induction ms with
   | nil => simp
   | cons m ms ih =>
-    obtain ⟨hwf, hlen⟩ := h m (by simp)
+    obtain ⟨hwf, hpv, hlen⟩ := h m (by simp)
     have hfl : 24 ≤ (frameMsg magic m).length := by
       obtain ⟨hc, _⟩ := command_props m
       have := checksumLen (payload m)
@@ -156,20 +156,20 @@ theorem parse_stream_append (magic : Bytes) (hm : magic.length = 4) (ms : List M
       | cons => rfl
     rw [hf]
     simp only [parseAllAux, hne, Bool.false_eq_true, if_false]
-    rw [parse_frame magic hm m hwf hlen]
+    rw [parse_frame pv magic hm m hwf hpv hlen]
     simp only
-    rw [parseAllAux_fuel magic f S.length S (by omega) (Nat.le_refl _), ih']
+    rw [parseAllAux_fuel magic pv f S.length S (by omega) (Nat.le_refl _), ih']
 
 /-- the loop with positions: after the i-th message exactly the frames that follow it (and `tail`)
     remain unread; `parse_stream_append` is its projection -/
-theorem parse_stream_trace (magic : Bytes) (hm : magic.length = 4) (ms : List Msg)
-    (h : ∀ m ∈ ms, WFMsg m ∧ (payload m).length ≤ Spec.Wire.maxSize) (tail : Bytes) :
-    parseTrace magic ((ms.map (frameMsg magic)).flatten ++ tail) =
-      (streamTrace magic ms tail ++ (parseTrace magic tail).1, (parseTrace magic tail).2) := by
+theorem parse_stream_trace (pv : Nat) (magic : Bytes) (hm : magic.length = 4) (ms : List Msg)
+    (h : ∀ m ∈ ms, WFMsg m ∧ AddrProto pv m ∧ (payload m).length ≤ Spec.Wire.maxSize) (tail : Bytes) :
+    parseTrace magic pv ((ms.map (frameMsg magic)).flatten ++ tail) =
+      (streamTrace magic ms tail ++ (parseTrace magic pv tail).1, (parseTrace magic pv tail).2) := by
   induction ms with
   | nil => simp [streamTrace]
   | cons m ms ih =>
-    obtain ⟨hwf, hlen⟩ := h m (by simp)
+    obtain ⟨hwf, hpv, hlen⟩ := h m (by simp)
     have hfl : 24 ≤ (frameMsg magic m).length := by
       obtain ⟨hc, _⟩ := command_props m
       have := checksumLen (payload m)
@@ -188,40 +188,40 @@ theorem parse_stream_trace (magic : Bytes) (hm : magic.length = 4) (ms : List Ms
       | cons => rfl
     rw [hf]
     simp only [parseTraceAux, hne, Bool.false_eq_true, if_false]
-    rw [parse_frame magic hm m hwf hlen]
+    rw [parse_frame pv magic hm m hwf hpv hlen]
     simp only
-    rw [parseTraceAux_fuel magic f S.length S (by omega) (Nat.le_refl _), ih']
+    rw [parseTraceAux_fuel magic pv f S.length S (by omega) (Nat.le_refl _), ih']
 
 /-- `parseAll` (what the other stream theorems speak about) is the projection of `parseTrace` (what
     the driver prints, with positions): same messages, same final error -/
-theorem parseAll_eq_trace (magic s : Bytes) :
-    parseAll magic s = ((parseTrace magic s).1.map Prod.fst, (parseTrace magic s).2.map Prod.fst) :=
-  parseAllAux_eq_trace magic s.length s
+theorem parseAll_eq_trace (pv : Nat) (magic s : Bytes) :
+    parseAll magic pv s = ((parseTrace magic pv s).1.map Prod.fst, (parseTrace magic pv s).2.map Prod.fst) :=
+  parseAllAux_eq_trace magic pv s.length s
 
 /-! ### rejection: wrong magic, wrong checksum, truncation, impossible length -/
 
 /-- a stream that does not start with the chain's magic is rejected (ValueError once the 24
     header bytes could be read, truncation error before); the header is consumed, nothing more -/
-theorem bad_magic_rejected (magic s : Bytes) (h : s.take 4 ≠ magic) :
-    streamDeserialize magic s =
+theorem bad_magic_rejected (pv : Nat) (magic s : Bytes) (h : s.take 4 ≠ magic) :
+    streamDeserialize magic pv s =
       if s.length < 24 then (.error .trunc, []) else (.error .valueerr, s.drop 24) := by
   by_cases hs : s.length < 24
-  · rw [if_pos hs]; exact streamDeserialize_short magic s hs
-  · rw [if_neg hs, streamDeserialize_unfold magic s (by omega), if_pos h]
+  · rw [if_pos hs]; exact streamDeserialize_short magic pv s hs
+  · rw [if_neg hs, streamDeserialize_unfold magic pv s (by omega), if_pos h]
 
 /-- a frame whose checksum field differs from the checksum of the payload it carries is rejected
     with ValueError, whatever its command and payload; the frame is consumed -/
-theorem bad_checksum_rejected (magic cmdField cks payload rest : Bytes) (hm : magic.length = 4)
+theorem bad_checksum_rejected (pv : Nat) (magic cmdField cks payload rest : Bytes) (hm : magic.length = 4)
     (hc : cmdField.length = 12) (hk : cks.length = 4) (hp : payload.length ≤ Spec.Wire.maxSize)
     (hbad : cks ≠ Model.Msg.checksum payload) :
-    streamDeserialize magic (magic ++ cmdField ++ leBytes 4 payload.length ++ cks ++ (payload ++ rest)) =
+    streamDeserialize magic pv (magic ++ cmdField ++ leBytes 4 payload.length ++ cks ++ (payload ++ rest)) =
       (.error .valueerr, rest) := by
   have hp32 : payload.length < 256 ^ 4 := by
     have : Spec.Wire.maxSize < 256 ^ 4 := by decide
     omega
   obtain ⟨g0, g1, g2, g3, g4, g5⟩ := stream_fields magic cmdField (leBytes 4 payload.length) cks
     (payload ++ rest) hm hc (leBytes_length _ _) hk
-  rw [streamDeserialize_unfold _ _ g0, g1, g3, g4, g5, leNat_leBytes, Nat.mod_eq_of_lt hp32]
+  rw [streamDeserialize_unfold _ _ _ g0, g1, g3, g4, g5, leNat_leBytes, Nat.mod_eq_of_lt hp32]
   have h1 : ¬ payload.length > MAX_SIZE := by
     have : MAX_SIZE = Spec.Wire.maxSize := rfl
     omega
@@ -236,13 +236,13 @@ theorem bad_checksum_rejected (magic cmdField cks payload rest : Bytes) (hm : ma
 
 /-- a frame whose payload was altered in transit (same length, header untouched) is rejected unless
     the altered payload has the same 32-bit checksum — the one cryptographic assumption, explicit -/
-theorem corrupted_payload_rejected (magic cmd payload payload' rest : Bytes)
+theorem corrupted_payload_rejected (pv : Nat) (magic cmd payload payload' rest : Bytes)
     (hm : magic.length = 4) (hc : cmd.length ≤ 12) (hl : payload'.length = payload.length)
     (hp : payload.length ≤ Spec.Wire.maxSize)
     (hno : Model.Msg.checksum payload' ≠ Model.Msg.checksum payload) :
-    streamDeserialize magic (magic ++ commandField cmd ++ leBytes 4 payload.length ++
+    streamDeserialize magic pv (magic ++ commandField cmd ++ leBytes 4 payload.length ++
       Model.Msg.checksum payload ++ (payload' ++ rest)) = (.error .valueerr, rest) := by
-  have := bad_checksum_rejected magic (commandField cmd) (Model.Msg.checksum payload) payload' rest hm
+  have := bad_checksum_rejected pv magic (commandField cmd) (Model.Msg.checksum payload) payload' rest hm
     (commandField_length cmd hc) (checksumLen payload) (by omega) (fun h => hno h.symm)
   rw [hl] at this
   exact this
@@ -250,30 +250,30 @@ theorem corrupted_payload_rejected (magic cmd payload payload' rest : Bytes)
 /-- whatever is returned (a message, or `None` for an unknown command) came from a frame with the
     right magic, an honourable length and a matching checksum, and exactly that frame was consumed:
     no rejected stream is ever returned as a message -/
-theorem accepted_frame_valid (magic s : Bytes) (m : Option Msg) (r : Bytes)
-    (h : streamDeserialize magic s = (.ok m, r)) :
+theorem accepted_frame_valid (pv : Nat) (magic s : Bytes) (m : Option Msg) (r : Bytes)
+    (h : streamDeserialize magic pv s = (.ok m, r)) :
     24 ≤ s.length ∧ s.take 4 = magic ∧ declaredLen s ≤ MAX_SIZE ∧ 24 + declaredLen s ≤ s.length ∧
     (s.drop 20).take 4 = Model.Msg.checksum ((s.drop 24).take (declaredLen s)) ∧
     r = s.drop (24 + declaredLen s) :=
-  streamDeserialize_ok_valid magic s m r h
+  streamDeserialize_ok_valid magic pv s m r h
 
 /-- the driver's classification of an error as frame-level or payload-level rests on this: when the
     header tests fail the outcome is one of the three frame-level errors, and anything returned
     passed them -/
-theorem rejected_before_dispatch (magic s : Bytes) (h : frameAccepted magic s = false) :
-    ∃ e r, streamDeserialize magic s = (.error e, r) ∧ (e = .trunc ∨ e = .valueerr ∨ e = .sererr) :=
-  not_accepted_error magic s h
+theorem rejected_before_dispatch (pv : Nat) (magic s : Bytes) (h : frameAccepted magic s = false) :
+    ∃ e r, streamDeserialize magic pv s = (.error e, r) ∧ (e = .trunc ∨ e = .valueerr ∨ e = .sererr) :=
+  not_accepted_error magic pv s h
 
-theorem returned_was_accepted (magic s : Bytes) (m : Option Msg) (r : Bytes)
-    (h : streamDeserialize magic s = (.ok m, r)) : frameAccepted magic s = true := by
-  obtain ⟨h1, h2, h3, h4, h5, _⟩ := streamDeserialize_ok_valid magic s m r h
+theorem returned_was_accepted (pv : Nat) (magic s : Bytes) (m : Option Msg) (r : Bytes)
+    (h : streamDeserialize magic pv s = (.ok m, r)) : frameAccepted magic s = true := by
+  obtain ⟨h1, h2, h3, h4, h5, _⟩ := streamDeserialize_ok_valid magic pv s m r h
   exact (frameAccepted_iff magic s).mpr ⟨h1, h2, h3, h4, h5⟩
 
 /-- every strict prefix of a frame raises the truncation error (the stream is exhausted) -/
-theorem truncated_frame_trunc (magic cmd payload : Bytes) (hm : magic.length = 4)
+theorem truncated_frame_trunc (pv : Nat) (magic cmd payload : Bytes) (hm : magic.length = 4)
     (hc : cmd.length ≤ 12) (hp : payload.length ≤ Spec.Wire.maxSize) (p : Bytes)
     (hpre : p <+: Spec.Msg.frame magic cmd payload) (hne : p ≠ Spec.Msg.frame magic cmd payload) :
-    streamDeserialize magic p = (.error .trunc, []) := by
+    streamDeserialize magic pv p = (.error .trunc, []) := by
   have hk : (Spec.Msg.checksum payload).length = 4 := checksumLen payload
   have hcf := commandField_length cmd hc
   have hp32 : payload.length < 256 ^ 4 := by
@@ -287,7 +287,7 @@ theorem truncated_frame_trunc (magic cmd payload : Bytes) (hm : magic.length = 4
     · exact h
     · exact absurd (hpre.eq_of_length (by omega)) hne
   by_cases hs : p.length < 24
-  · exact streamDeserialize_short magic p hs
+  · exact streamDeserialize_short magic pv p hs
   · have hhl : (magic ++ commandField cmd ++ leBytes 4 payload.length ++ Spec.Msg.checksum payload).length = 24 := by
       simp [hm, hcf, hk]
     have hp' : p = magic ++ commandField cmd ++ leBytes 4 payload.length ++ Spec.Msg.checksum payload ++
@@ -297,7 +297,7 @@ theorem truncated_frame_trunc (magic cmd payload : Bytes) (hm : magic.length = 4
       rw [List.take_append, List.take_of_length_le (by omega), hhl]
     obtain ⟨g0, g1, g2, g3, g4, g5⟩ := stream_fields magic (commandField cmd) (leBytes 4 payload.length)
       (Spec.Msg.checksum payload) (payload.take (p.length - 24)) hm hcf (leBytes_length _ _) hk
-    rw [hp', streamDeserialize_unfold _ _ g0, g1, g3, leNat_leBytes, Nat.mod_eq_of_lt hp32]
+    rw [hp', streamDeserialize_unfold _ _ _ g0, g1, g3, leNat_leBytes, Nat.mod_eq_of_lt hp32]
     have h1 : ¬ payload.length > MAX_SIZE := by
       have : MAX_SIZE = Spec.Wire.maxSize := rfl
       omega
@@ -310,26 +310,26 @@ theorem truncated_frame_trunc (magic cmd payload : Bytes) (hm : magic.length = 4
     past the 24-byte header, otherwise (more than the stream holds) with the truncation error
     after reading what is available — never beyond the stream, never a message.
     (False for the shipped signed-length code, D14.) -/
-theorem length_guard (magic s : Bytes) (h24 : 24 ≤ s.length) (hm : s.take 4 = magic) :
-    (declaredLen s > MAX_SIZE → streamDeserialize magic s = (.error .sererr, s.drop 24)) ∧
+theorem length_guard (pv : Nat) (magic s : Bytes) (h24 : 24 ≤ s.length) (hm : s.take 4 = magic) :
+    (declaredLen s > MAX_SIZE → streamDeserialize magic pv s = (.error .sererr, s.drop 24)) ∧
     (declaredLen s ≤ MAX_SIZE → declaredLen s > s.length - 24 →
-      streamDeserialize magic s = (.error .trunc, [])) := by
+      streamDeserialize magic pv s = (.error .trunc, [])) := by
   constructor
   · intro h
-    rw [streamDeserialize_unfold magic s h24]
+    rw [streamDeserialize_unfold magic pv s h24]
     simp [hm, h]
   · intro h1 h2
-    rw [streamDeserialize_unfold magic s h24]
+    rw [streamDeserialize_unfold magic pv s h24]
     have : ¬ declaredLen s > MAX_SIZE := by omega
     simp [hm, this, h2]
 
 /-- when the declared length can be honoured the call never reads beyond the frame: the stream
     position afterwards is the end of the header (magic rejected) or the end of the frame -/
-theorem position_le_frame_end (magic s : Bytes) (h24 : 24 ≤ s.length)
+theorem position_le_frame_end (pv : Nat) (magic s : Bytes) (h24 : 24 ≤ s.length)
     (hfit : declaredLen s ≤ s.length - 24) (hmax : declaredLen s ≤ MAX_SIZE) :
-    (streamDeserialize magic s).2 = s.drop 24 ∨
-    (streamDeserialize magic s).2 = s.drop (24 + declaredLen s) := by
-  rw [streamDeserialize_unfold magic s h24]
+    (streamDeserialize magic pv s).2 = s.drop 24 ∨
+    (streamDeserialize magic pv s).2 = s.drop (24 + declaredLen s) := by
+  rw [streamDeserialize_unfold magic pv s h24]
   have c2 : ¬ declaredLen s > MAX_SIZE := by omega
   have c3 : ¬ s.length - 24 < declaredLen s := by omega
   by_cases c1 : s.take 4 ≠ magic
@@ -375,6 +375,18 @@ example : (payload (.version exVersion60002)).length = 85 := by decide
 example : (msgSer (.version exVersion60002)).toOption.map List.length = some 85 := by
   rw [payload_eq_spec _ (by decide)]
   decide
+/-- D24: a version field of 10300 is in the domain and is carried as 10300 -/
+example : WFMsg (.version { exVersion60002 with nVersion := 10300 }) := by decide
+
+/-- D25: an address of protocol version 31401 carries no time field (26 bytes), and the reader that is
+    told the protocol version reads it back -/
+def exOldAddr : NetAddr := { exAddr with protover := 31401, nTime := 0 }
+
+example : WFMsg (.addr [exOldAddr]) ∧ AddrProto 31401 (.addr [exOldAddr]) := by decide
+example : (payload (.addr [exOldAddr])).length = 27 := by decide
+example : (payload (.addr [exAddr])).length = 31 := by decide
+example : AddrProto 60002 (.version exVersion60002) := by decide
+
 /-- a version-105 message: four fields only, nothing else carried -/
 def exVersion105 : VersionMsg :=
   { exVersion60002 with nVersion := 105, addrFrom := none, nNonce := none, strSubVer := none,
@@ -419,12 +431,12 @@ example (h1 h2 : Header) : (payload (.headers [h1, h2])).length =
   simp [payload, Spec.Wire.vec, headerEntry, Spec.Wire.compactSize]; omega
 
 /-- D14: a header declaring length 0xffffffff is refused with 24 bytes consumed, whatever follows -/
-example (magic rest : Bytes) (hm : magic.length = 4) (cmdField cks : Bytes) (hc : cmdField.length = 12)
+example (pv : Nat) (magic rest : Bytes) (hm : magic.length = 4) (cmdField cks : Bytes) (hc : cmdField.length = 12)
     (hk : cks.length = 4) :
-    streamDeserialize magic (magic ++ cmdField ++ [0xff, 0xff, 0xff, 0xff] ++ cks ++ rest) =
+    streamDeserialize magic pv (magic ++ cmdField ++ [0xff, 0xff, 0xff, 0xff] ++ cks ++ rest) =
       (.error .sererr, rest) := by
   obtain ⟨g0, g1, _, g3, _, g5⟩ := stream_fields magic cmdField [0xff, 0xff, 0xff, 0xff] cks rest hm hc rfl hk
-  have := (length_guard magic _ g0 g1).1 (by rw [g3]; decide)
+  have := (length_guard pv magic _ g0 g1).1 (by rw [g3]; decide)
   rw [this, g5]
 
 end BtcVerif.C18
